@@ -116,8 +116,13 @@ let fields_of (params : (BinNums.coq_N list list * BinNums.coq_N list) list) : s
 
 (* ---- rule sets ---- *)
 type binding = { verb : string; tmpl : string; body : string; resp : string; nested : bool }
-type meth = { svc : string; name : string; bindings : binding list }
+type meth = { svc : string; name : string; bindings : binding list; config : binding list }
 let full m = "/verif.rt." ^ m.svc ^ "/" ^ m.name
+let dec_binding b = match String.split_on_char '~' b with
+  | verb :: t :: body :: resp :: rest ->
+    let und x = if x = "-" then "" else x in
+    { verb; tmpl = string_of_hexfield t; body = und body; resp = und resp; nested = rest <> [] }
+  | _ -> failwith "binding"
 let dec_ruleset (s : string) : meth list =
   if s = "-" then [] else
   L.map (fun p ->
@@ -125,13 +130,12 @@ let dec_ruleset (s : string) : meth list =
       let nm = String.sub p 0 i and bs = String.sub p (i + 1) (String.length p - i - 1) in
       let j = String.index nm '.' in
       let svc = String.sub nm 0 j and name = String.sub nm (j + 1) (String.length nm - j - 1) in
-      let bindings = if bs = "_" then [] else
-          L.map (fun b -> match String.split_on_char '~' b with
-              | verb :: t :: body :: resp :: rest ->
-                let und x = if x = "-" then "" else x in
-                { verb; tmpl = string_of_hexfield t; body = und body; resp = und resp; nested = rest <> [] }
-              | _ -> failwith "binding") (String.split_on_char '+' bs) in
-      { svc; name; bindings }) (String.split_on_char ';' s)
+      let (bs, cfg) = match String.index_opt bs '@' with
+        | Some k -> (String.sub bs 0 k, String.sub bs (k + 1) (String.length bs - k - 1))
+        | None -> (bs, "") in
+      let bindings = if bs = "_" then [] else L.map dec_binding (String.split_on_char '+' bs) in
+      let config = if cfg = "" then [] else L.map dec_binding (String.split_on_char '+' cfg) in
+      { svc; name; bindings; config }) (String.split_on_char ';' s)
 
 let bsel_of (b : string) : Trie.bsel =
   if b = "" then Trie.BNone else if b = "*" then Trie.BStar
@@ -140,7 +144,8 @@ let brule_of (b : binding) : Trie.brule =
   { Trie.b_verb = str_of_string b.verb; b_tmpl = str_of_string b.tmpl; b_body = bsel_of b.body;
     b_resp = (if b.resp = "" then [] else L.map str_of_string (String.split_on_char '.' b.resp)); b_nested = b.nested }
 let mdecl_of (m : meth) : Trie.mdecl =
-  { Trie.d_id = str_of_string (full m); d_config = [];
+  { Trie.d_id = str_of_string (full m);
+    d_config = (match m.config with [] -> [] | b :: adds -> [ { Trie.h_main = brule_of b; h_adds = L.map brule_of adds } ]);
     d_annot = (match m.bindings with [] -> None | b :: adds -> Some { Trie.h_main = brule_of b; h_adds = L.map brule_of adds }) }
 
 (* services in order of first appearance, each registered all-or-nothing; the first failure stops *)
@@ -178,7 +183,7 @@ let spec_bindings cls (ms : meth list) : sb list =
   let (il, inum) = classifier cls in
   L.concat_map (fun m ->
       { owner = full m; sverb = "*"; st = Template.parse_tmpl il inum (str_of_string (full m)); raw = None } ::
-      L.map (fun b -> { owner = full m; sverb = b.verb; st = Template.parse_tmpl il inum (str_of_string b.tmpl); raw = Some b }) m.bindings) ms
+      L.map (fun b -> { owner = full m; sverb = b.verb; st = Template.parse_tmpl il inum (str_of_string b.tmpl); raw = Some b }) (m.config @ m.bindings)) ms
 
 let shape_eq (a : Template.tmpl) (b : Template.tmpl) =
   L.length a.Template.t_segs = L.length b.Template.t_segs
@@ -238,13 +243,15 @@ let spec_route cls (ms : meth list) verb path (status, meth, fields) : string op
       else Some (Printf.sprintf "dispatched to %s although another method spells a segment of %S literally where %s has a wildcard" meth path meth)
     end
   end else begin
-    (* C02 completeness: a strictly matching rule with convertible captures must be served *)
+    (* C02 completeness: when some rule matches strictly and every matching rule's captures are
+       convertible (the property's premise), the request must be served *)
     let m = L.filter_map (fun b -> match matches true b with
-        | Some (_, caps) -> if L.for_all (fun (fp, txt) -> okconv fp txt) caps then Some b.owner else None
+        | Some (_, caps) -> Some (b.owner, L.for_all (fun (fp, txt) -> okconv fp txt) caps)
         | None -> None) bs in
     match m with
     | [] -> None
-    | o :: _ -> Some (Printf.sprintf "status %s: not dispatched although a rule of %s matches verb %s and path %S" status o verb path)
+    | (o, _) :: _ when L.for_all snd m -> Some (Printf.sprintf "status %s: not dispatched although a rule of %s matches verb %s and path %S" status o verb path)
+    | _ -> None
   end
 
 let split3 s = match String.split_on_char ',' s with
@@ -288,8 +295,8 @@ let run inp obs : string option * string option =
        then (Some (Printf.sprintf "the outcome depends on the registration order: %s" results), None)
        else (None, first_some snd))
   | ["RG"; base; rs; cls], [reg; probe] ->
-    let base_ms = [ { svc = "B0"; name = "Get"; bindings = [ { verb = "GET"; tmpl = "/base/{s1}"; body = ""; resp = ""; nested = false } ] };
-                    { svc = "B0"; name = "Put"; bindings = [ { verb = "PUT"; tmpl = "/base/{s1}/sub/{s2=aa/*}:act"; body = "*"; resp = ""; nested = false } ] } ] in
+    let base_ms = [ { svc = "B0"; name = "Get"; bindings = [ { verb = "GET"; tmpl = "/base/{s1}"; body = ""; resp = ""; nested = false } ]; config = [] };
+                    { svc = "B0"; name = "Put"; bindings = [ { verb = "PUT"; tmpl = "/base/{s1}/sub/{s2=aa/*}:act"; body = "*"; resp = ""; nested = false } ]; config = [] } ] in
     let ms = (if base = "1" then base_ms else []) @ dec_ruleset rs in
     let want = spec_reg cls ms in
     let (_, mreg) = model_build cls ms in
